@@ -254,6 +254,11 @@ Proof.
   unfold last_link. rewrite rev_app_distr. reflexivity.
 Qed.
 
+Lemma last_link_cons (l0 : link) (e : entry) (r : list entry) : last_link _ _ l0 (e :: r) = last_link _ _ (elink _ _ e) r.
+Proof.
+  destruct r as [|x r'] using rev_ind; [reflexivity|]. unfold last_link. cbn [rev]. rewrite !rev_app_distr. reflexivity.
+Qed.
+
 Lemma ne_last_link f (n : node) les rs : ne (S f) n -> n_es _ _ n = les ++ rs -> fitsl_of K V (ne f) (last_link _ _ (n_l0 _ _ n) les).
 Proof.
   intros (_ & H0 & Hes) E. destruct (last_link_cases (n_l0 _ _ n) les) as [[_ ->]|(a & e & Ea & ->)]; [exact H0|].
@@ -323,6 +328,141 @@ Theorem ceil_ok F k (n : node) : ne F n -> sorted (to_list_n n) ->
 Proof.
   intros Hne Hs. cbn [cur_ceil]. eapply oks_weaken; [exact (ceil_from_ok F k F n [] Hne Hne Hs ltac:(constructor))|].
   intros p' (Ha & Hv & Hp). split; [|split; assumption]. rewrite Ha. cbn [after flat_map]. apply app_nil_r.
+Qed.
+
+(** * Max and Backward: the mirror image.  [before p] lists the entries up to and including the
+    cursor's position. *)
+Fixpoint lflat (l0 : link) (es : list entry) : list kv :=
+  match es with [] => [] | e :: r => to_list l0 ++ (ekey _ _ e, eval _ _ e) :: lflat (elink _ _ e) r end.
+Definition lpre (n : node) (j : Z) : list kv := lflat (n_l0 _ _ n) (firstn (Z.to_nat j) (n_es _ _ n)).
+Fixpoint anc (p : cpath) : list kv := match p with [] => [] | (n, j) :: r => anc r ++ lpre n j end.
+Definition before (p : cpath) : list kv := match p with [] => [] | (n, i) :: r => anc r ++ lpre n (i + 1) end.
+
+Lemma lflat_snoc : forall (a : list entry) l0 e,
+  lflat l0 (a ++ [e]) = lflat l0 a ++ to_list (last_link _ _ l0 a) ++ [(ekey _ _ e, eval _ _ e)].
+Proof.
+  induction a as [|x a IH]; intros l0 e; [cbn; reflexivity|]. cbn [app lflat]. rewrite IH, <- app_assoc, last_link_cons. reflexivity.
+Qed.
+Lemma lflat_full (l0 : link) (es : list entry) : to_list l0 ++ flat_es es = lflat l0 es ++ to_list (last_link _ _ l0 es).
+Proof.
+  revert l0. induction es as [|e r IH]; intros l0; [cbn; rewrite app_nil_r; reflexivity|].
+  unfold flat_es in *. cbn [flat_map lflat]. rewrite <- !app_assoc. cbn [app]. f_equal. f_equal. rewrite IH, last_link_cons. reflexivity.
+Qed.
+
+Lemma nth_link_last (n : node) i : (0 <= i <= nkeys _ _ n)%Z ->
+  nth_link _ _ n i = last_link _ _ (n_l0 _ _ n) (firstn (Z.to_nat i) (n_es _ _ n)).
+Proof.
+  unfold nth_link, nkeys, n_nkeys, n_links. intros Hi. destruct (i <? 0)%Z eqn:E; [lia|]. clear E.
+  assert (Hle : Z.to_nat i <= length (n_es _ _ n)) by lia. clear Hi. revert Hle. generalize (Z.to_nat i) (n_l0 _ _ n). intros j.
+  induction (n_es _ _ n) as [|e r IH] in j |- *; intros l0 Hle.
+  - destruct j; [reflexivity|cbn in Hle; lia].
+  - destruct j as [|j]; [reflexivity|]. cbn [map nth firstn length] in *. rewrite (IH j (elink _ _ e)) by lia.
+    rewrite last_link_cons. reflexivity.
+Qed.
+
+Lemma lpre_step n i : (0 <= i < nkeys _ _ n)%Z ->
+  exists e, nth_error (n_es _ _ n) (Z.to_nat i) = Some e /\
+            lpre n (i + 1) = lpre n i ++ to_list (nth_link _ _ n i) ++ [(ekey _ _ e, eval _ _ e)].
+Proof.
+  intros Hi. destruct (suffix_step n i Hi) as (e & Ee & _ & _). exists e. split; [exact Ee|].
+  unfold lpre. replace (Z.to_nat (i + 1)) with (S (Z.to_nat i)) by lia.
+  assert (Hf : firstn (S (Z.to_nat i)) (n_es _ _ n) = firstn (Z.to_nat i) (n_es _ _ n) ++ [e]).
+  { clear -Ee. revert Ee. generalize (Z.to_nat i). induction (n_es _ _ n) as [|x r IH]; intros [|j] E; cbn in *; try discriminate.
+    - inversion E. reflexivity.
+    - f_equal. apply IH. exact E. }
+  rewrite Hf, lflat_snoc, (nth_link_last n i ltac:(lia)). reflexivity.
+Qed.
+
+Lemma lpre_0 n : lpre n 0 = [].
+Proof. reflexivity. Qed.
+Lemma lpre_all n : lpre n (nkeys _ _ n) = lflat (n_l0 _ _ n) (n_es _ _ n).
+Proof. unfold lpre, nkeys, n_nkeys. rewrite Nat2Z.id, firstn_all. reflexivity. Qed.
+
+(* Get returns the last entry of what lies behind the cursor (its own position included) *)
+Theorem get_last_ok n i r : valid ((n, i) :: r) ->
+  exists x, before ((n, i) :: r) = anc r ++ lpre n i ++ to_list (nth_link _ _ n i) ++ [x] /\ cur_get _ _ ((n, i) :: r) = Some x.
+Proof.
+  cbn [valid]. intros Hi. destruct (lpre_step n i Hi) as (e & Ee & Hs). exists (ekey _ _ e, eval _ _ e).
+  cbn [before cur_get]. rewrite Hs. destruct (i <? 0)%Z eqn:E; [lia|]. rewrite Ee. split; reflexivity.
+Qed.
+
+Lemma max_unfold f (n : node) (p : cpath) :
+  cur_max_from _ _ (S f) n p =
+  if is_nil _ _ (last_link _ _ (n_l0 _ _ n) (n_es _ _ n)) then ret ((n, (nkeys _ _ n - 1)%Z) :: p)
+  else let* c := load _ _ (last_link _ _ (n_l0 _ _ n) (n_es _ _ n)) in cur_max_from _ _ f c ((n, (nlinks _ _ n - 1)%Z) :: p).
+Proof. cbn [cur_max_from]. destruct (last_link _ _ (n_l0 _ _ n) (n_es _ _ n)); reflexivity. Qed.
+
+Lemma max_from_ok F : forall f (n : node) p, ne f n -> ne F n -> pok F p ->
+  oks (cur_max_from _ _ f n p)
+      (fun p' => before p' = anc p ++ to_list_n n /\ valid p' /\ pok F p').
+Proof.
+  induction f as [|f IH]; intros n p Hne HF Hp; [contradiction|]. pose proof Hne as (Hem & H0 & Hes). rewrite max_unfold.
+  destruct (is_nil _ _ (last_link _ _ (n_l0 _ _ n) (n_es _ _ n))) eqn:En.
+  - apply is_nil_true in En. apply oks_ret.
+    assert (Hk : (0 < nkeys _ _ n)%Z).
+    { unfold nkeys, n_nkeys. destruct n as [d s l0 es]. cbn [n_l0 n_es is_empty] in *. destruct es as [|e r]; [|cbn; lia].
+      unfold last_link in En. cbn in En. subst l0. discriminate. }
+    split; [|split].
+    + cbn [before]. replace (nkeys _ _ n - 1 + 1)%Z with (nkeys _ _ n) by lia. rewrite lpre_all, to_list_n_flat, lflat_full, En. cbn [Tree.to_list].
+      rewrite app_nil_r. reflexivity.
+    + cbn [valid]. lia.
+    + constructor; [split; [exact HF|cbn [fst snd]; lia]|exact Hp].
+  - apply is_nil_false in En. pose proof (ne_last_link f n (n_es _ _ n) [] Hne ltac:(rewrite app_nil_r; reflexivity)) as Hc.
+    assert (HcF : fitsl_of K V (ne F) (last_link _ _ (n_l0 _ _ n) (n_es _ _ n))).
+    { destruct F as [|F']; [contradiction|]. apply nel_mono. exact (ne_last_link F' n (n_es _ _ n) [] HF ltac:(rewrite app_nil_r; reflexivity)). }
+    apply (oks_bind _ _ (fun c => (ne f c /\ ne F c) /\ to_list_n c = to_list (last_link _ _ (n_l0 _ _ n) (n_es _ _ n)))).
+    { destruct (last_link _ _ (n_l0 _ _ n) (n_es _ _ n)) as [|c|h c|h]; cbn [fitsl_of] in *; try contradiction.
+      - exists [], c. repeat split; assumption.
+      - exists [ELoad h], c. repeat split; assumption. }
+    intros c [[Hcf HcF'] Hcl].
+    assert (Hhere : pok F ((n, (nlinks _ _ n - 1)%Z) :: p)).
+    { constructor; [split; [exact HF|cbn [fst snd]; unfold nlinks, nkeys; lia]|exact Hp]. }
+    eapply oks_weaken; [exact (IH c _ Hcf HcF' Hhere)|]. intros p' (Hb & Hv & Hp'). split; [|split; assumption].
+    rewrite Hb. cbn [anc]. replace (nlinks _ _ n - 1)%Z with (nkeys _ _ n) by (unfold nlinks, nkeys; lia).
+    rewrite lpre_all, Hcl, to_list_n_flat, lflat_full, <- app_assoc. reflexivity.
+Qed.
+
+(* Max on a fresh cursor: everything lies behind it *)
+Theorem max_ok F (n : node) : ne F n ->
+  oks (cur_max _ _ F [(n, 0%Z)]) (fun p' => before p' = to_list_n n /\ valid p' /\ pok F p').
+Proof.
+  intros Hne. cbn [cur_max]. eapply oks_weaken; [exact (max_from_ok F F n [] Hne Hne ltac:(constructor))|].
+  intros p' (Hb & Hv & Hp). split; [|split; assumption]. rewrite Hb. reflexivity.
+Qed.
+
+Lemma pop_bwd_ok F : forall p, pok F p ->
+  before (cur_pop_bwd _ _ p) = anc p /\ valid (cur_pop_bwd _ _ p) /\ pok F (cur_pop_bwd _ _ p).
+Proof.
+  induction p as [|[n i] r IH]; intros H; [split; [reflexivity|split; [exact I|constructor]]|]. inversion H as [|? ? [Hn Hi] Hr]; subst. cbn [fst snd] in *.
+  cbn [cur_pop_bwd]. destruct (0 <? i)%Z eqn:E.
+  - apply Z.ltb_lt in E. split; [cbn [before anc]; replace (i - 1 + 1)%Z with i by lia; reflexivity|]. split; [cbn [valid]; lia|].
+    constructor; [split; [exact Hn|cbn [fst snd]; lia]|exact Hr].
+  - apply Z.ltb_ge in E. destruct (IH Hr) as (A & B & C). split; [|split; assumption].
+    rewrite A. cbn [anc]. replace i with 0%Z by lia. rewrite lpre_0, app_nil_r. reflexivity.
+Qed.
+
+(* Backward drops exactly the last entry of what lies behind the cursor *)
+Theorem backward_ok F p : valid p -> pok F p ->
+  oks (cur_backward _ _ F p) (fun p' => before p' = removelast (before p) /\ valid p' /\ pok F p').
+Proof.
+  destruct p as [|[n i] rest]; intros Hv Hp; [apply oks_ret; split; [reflexivity|split; [exact I|constructor]]|].
+  destruct (get_last_ok n i rest Hv) as (x & Hb & _). cbn [valid] in Hv. inversion Hp as [|? ? [Hn Hi] Hr]; subst. cbn [fst snd] in *.
+  rewrite Hb, !app_assoc, removelast_last, <- !app_assoc. cbn [cur_backward].
+  assert (H0i : (0 <=? i)%Z = true) by (apply Z.leb_le; lia). rewrite H0i. cbn [andb].
+  destruct (is_nil _ _ (nth_link _ _ n i)) eqn:En; cbn [negb].
+  - apply is_nil_true in En. rewrite En. cbn [Tree.to_list]. rewrite app_nil_r.
+    destruct (0 <? i)%Z eqn:Ei.
+    + apply Z.ltb_lt in Ei. apply oks_ret. split; [cbn [before]; replace (i - 1 + 1)%Z with i by lia; reflexivity|]. split; [cbn [valid]; lia|].
+      constructor; [split; [exact Hn|cbn [fst snd]; lia]|exact Hr].
+    + apply Z.ltb_ge in Ei. apply oks_ret. destruct (pop_bwd_ok F rest Hr) as (A & B & C). split; [|split; assumption].
+      rewrite A. replace i with 0%Z by lia. rewrite lpre_0, app_nil_r. reflexivity.
+  - apply is_nil_false in En.
+    assert (Hc : fitsl_of K V (ne F) (nth_link _ _ n i)).
+    { rewrite (nth_link_last n i ltac:(lia)). destruct F as [|F']; [contradiction|]. apply nel_mono.
+      apply (ne_last_link F' n (firstn (Z.to_nat i) (n_es _ _ n)) (skipn (Z.to_nat i) (n_es _ _ n)) Hn). symmetry. apply firstn_skipn. }
+    apply (oks_bind _ _ _ _ (load_ne F _ Hc En)). intros c [Hcn Hcl].
+    eapply oks_weaken; [exact (max_from_ok F F c ((n, i) :: rest) Hcn Hcn Hp)|].
+    intros p' (Hb' & Hv' & Hp'). split; [|split; assumption]. rewrite Hb', Hcl. cbn [anc]. rewrite <- app_assoc. reflexivity.
 Qed.
 
 End CURSOR.
@@ -408,4 +548,42 @@ Proof.
   rewrite (get_ok K V p' Hv'), Ha', Ha, Hlist. generalize (from_key K V cmp k l). clear. intros l. revert l.
   induction j as [|j IH]; intros [|x l]; try reflexivity. cbn [skipn nth_error]. apply IH.
 Qed.
+(* j Backward steps *)
+Fixpoint backward_n (F : nat) (j : nat) (p : cpath) : M cpath :=
+  match j with O => ret p | S j' => let* p' := cur_backward _ _ F p in backward_n F j' p' end.
+
+Lemma rev_removelast {A} (l : list A) : rev (removelast l) = tl (rev l).
+Proof.
+  destruct l as [|x l] using rev_ind; [reflexivity|]. rewrite removelast_last, rev_app_distr. reflexivity.
+Qed.
+
+Theorem backward_n_ok F : forall j p, valid K V p -> pok K V F p ->
+  oks (backward_n F j p) (fun p' => rev (before K V p') = skipn j (rev (before K V p)) /\ valid K V p' /\ pok K V F p').
+Proof.
+  induction j as [|j IH]; intros p Hv Hp; [apply oks_ret; repeat split; assumption|]. cbn [backward_n].
+  apply (oks_bind _ _ _ _ (backward_ok K V F p Hv Hp)). intros p' (Hb & Hv' & Hp').
+  eapply oks_weaken; [exact (IH p' Hv' Hp')|]. intros p'' (Hb'' & Hv'' & Hp''). split; [|split; assumption].
+  rewrite Hb'', Hb, rev_removelast. destruct (rev (before K V p)); [destruct j; reflexivity|reflexivity].
+Qed.
+
+Lemma get_is_last p : valid K V p -> cur_get _ _ p = hd_error (rev (before K V p)).
+Proof.
+  destruct p as [|[n i] r]; [reflexivity|]. intros Hv. destruct (get_last_ok K V n i r Hv) as (x & Hb & Hg).
+  rewrite Hg, Hb, !app_assoc, rev_app_distr. reflexivity.
+Qed.
+
+(** Max, then j times Backward, then Get reads the j-th entry from the end *)
+Theorem cursor_walk_back bf (m : mast K V) l j n :
+  canon K V cmp layer bf m l -> l <> [] -> root_n _ _ (m_root _ _ m) = Some n ->
+  oks (let* p := cur_max _ _ (S (m_height _ _ m)) [(n, 0%Z)] in backward_n (S (m_height _ _ m)) j p)
+      (fun p => cur_get _ _ p = nth_error (rev l) j).
+Proof.
+  intros C Hl Hn. destruct (cn_root _ _ _ _ _ _ _ C) as (n' & Hn' & He). rewrite Hn in Hn'. inversion Hn'; subst n'.
+  pose proof (ne_bnode _ n l Hl He) as Hne. pose proof (canon_list K V layer _ _ _ He) as Hlist.
+  apply (oks_bind _ _ _ _ (max_ok K V _ n Hne)). intros p (Hb & Hv & Hp).
+  eapply oks_weaken; [exact (backward_n_ok _ j p Hv Hp)|]. intros p' (Hb' & Hv' & _).
+  rewrite (get_is_last p' Hv'), Hb', Hb, Hlist. generalize (rev l). clear. intros l. revert l.
+  induction j as [|j IH]; intros [|x l]; try reflexivity. cbn [skipn nth_error]. apply IH.
+Qed.
+
 End WALK.
